@@ -659,6 +659,9 @@ func sameLevel(i *Iter) bool {
 //@   requires 0 <= a.off && a.off <= 1<<57
 //@   invariant 0 0 <= a.off && a.off <= 1<<57
 //@   decreases 0 len(a.tape.Tape) - a.off
+//@   assertafter `append(dst, math.Float64frombits(a.tape.Tape[a.off]))` isfloat: tag == TagFloat
+//@   assertafter `append(dst, float64(int64(a.tape.Tape[a.off])))` isint: tag == TagInteger
+//@   assertafter `append(dst, float64(a.tape.Tape[a.off]))` isuint: tag == TagUint
 //@   safe
 
 //@ func (*Array).AsInteger variant anytape
@@ -666,6 +669,7 @@ func sameLevel(i *Iter) bool {
 //@   requires 0 <= a.off && a.off <= 1<<57
 //@   invariant 0 0 <= a.off && a.off <= 1<<57
 //@   decreases 0 len(a.tape.Tape) - a.off
+//@   assertafter `append(dst, int64(a.tape.Tape[a.off]))` isint: tag == TagInteger
 //@   safe
 
 //@ func (*Array).AsUint64 variant anytape
@@ -673,6 +677,7 @@ func sameLevel(i *Iter) bool {
 //@   requires 0 <= a.off && a.off <= 1<<57
 //@   invariant 0 0 <= a.off && a.off <= 1<<57
 //@   decreases 0 len(a.tape.Tape) - a.off
+//@   assertafter `append(dst, a.tape.Tape[a.off])` isuint: tag == TagUint
 //@   safe
 
 // ---------------------------------------------------------------------------
